@@ -1,6 +1,148 @@
 import Driver.Util
+import Sqfs.Model.FailStop
+import Sqfs.Model.FailStopBlockProc
+import Sqfs.Spec.FailStop
 namespace Driver.C13
-/-- stub: the model driver for C13 is not built yet -/
+open Sqfs.FailStop
+
+def siteName : Site → String
+  | .openStdin => "openStdin" | .tarOpen => "tarOpen" | .compCfg => "compCfg" | .openOut => "openOut" | .openHandle => "openHandle"
+  | .fsDefaults => "fsDefaults" | .fstreeInit => "fstreeInit" | .cmpCreate => "cmpCreate"
+  | .uncmpCreate => "uncmpCreate" | .superInit => "superInit" | .superWrite => "superWrite"
+  | .cmpOptions => "cmpOptions" | .blkwrCreate => "blkwrCreate" | .fragtblCreate => "fragtblCreate"
+  | .procCreate => "procCreate" | .idtblCreate => "idtblCreate" | .xwrCreate => "xwrCreate"
+  | .imCreate => "imCreate" | .dmCreate => "dmCreate" | .dirwrCreate => "dirwrCreate"
+  | .selinuxOpen => "selinuxOpen" | .xattrMapOpen => "xattrMapOpen" | .sortfileOpen => "sortfileOpen"
+  | .dirIterCreate => "dirIterCreate" | .scanDir => "scanDir" | .fstreeFromFile => "fstreeFromFile"
+  | .postProcess => "postProcess" | .applyXattrs => "applyXattrs" | .sortFiles => "sortFiles"
+  | .chdirPack => "chdirPack" | .packFile i => s!"packFile:{i}" | .sparseTail i => s!"sparseTail:{i}"
+  | .tarNext i => s!"tarNext:{i}" | .tarEntry i => s!"tarEntry:{i}"
+  | .procFinish => "procFinish" | .serialize => "serialize" | .fragTable => "fragTable"
+  | .exportAddRoot => "exportAddRoot" | .exportWrite => "exportWrite" | .idTable => "idTable"
+  | .xattrFlush => "xattrFlush" | .superRewrite => "superRewrite" | .pad => "pad"
+
+def msgName : Msg → String
+  | .waiting => "waiting" | .inodes => "inodes" | .fragtbl => "fragtbl" | .exporttbl => "exporttbl"
+  | .idtbl => "idtbl" | .xattrs => "xattrs"
+
+def joinOr (l : List String) : String := if l.isEmpty then "-" else ",".intercalate l
+
+def parseCfg (tool flags nf ns : String) : Option Cfg := do
+  let t ← if tool = "gen" then some Tool.gensquashfs else if tool = "t2s" then some Tool.tar2sqfs else none
+  let n ← nf.toNat?
+  let s ← ns.toNat?
+  let has := fun (c : Char) => flags.toList.contains c
+  if flags.toList.any (fun c => !("sxopdenq-".toList.contains c)) then none else
+  some { tool := t, selinux := has 's', xattrFile := has 'x', sortFile := has 'o', packFile := has 'p',
+         packDir := has 'd', exportable := has 'e', noXattr := has 'n', quiet := has 'q', nfiles := n, sparseTails := s }
+
+def parseVariant (s : String) : Option Variant :=
+  if s = "cur" then some .current else if s = "fix" then some .fixed else none
+
+/-- a fault spec is `-`, or a comma separated list of site names / `@position` -/
+def parseFaults (c : Cfg) (s : String) : Option (List Nat) :=
+  if s = "-" then some [] else
+  (s.splitOn ",").mapM fun tok =>
+    if tok.startsWith "@" then (tok.drop 1).toNat?
+    else
+      let names := (program c).map siteName
+      let i := names.findIdx (· == tok)
+      if i < names.length then some i else none
+
+def scriptOf (ps : List Nat) : List Bool :=
+  let m := ps.foldl max 0
+  if ps.isEmpty then [] else (List.range (m + 1)).map (fun i => ps.contains i)
+
+def outName : OutFile → String
+  | .never => "never" | .present => "present" | .unlinked => "unlinked"
+
+def showResult (r : Result) : String :=
+  let dmg := r.trace.ops.any (fun o => match o with | .damaged _ => true | _ => false)
+  let diag := match r.trace.failed with | some s => diagOnFail s | none => false
+  s!"status={r.status} out={outName r.out} cleanup={if r.cleanupReached then 1 else 0} finish={if r.finishOk then 1 else 0} failed={match r.trace.failed with | some s => siteName s | none => "-"} swallowed={joinOr (r.trace.swallowed.map siteName)} msgs={joinOr (r.trace.msgs.map msgName)} nops={r.trace.ops.length} damaged={if dmg then 1 else 0} diag={if diag then 1 else 0} ran={r.trace.ran.length}"
+
+def bit (s : String) : Option Bool := if s = "1" then some true else if s = "0" then some false else none
+
+/-! ### second layer: block processor sessions -/
+open Sqfs.FailStop.BP in
+def primName : BP.Prim → String
+  | .inodeAlloc => "inodeAlloc" | .allocBlock => "allocBlock" | .allocFragCopy => "allocFragCopy"
+  | .submit => "submit" | .poolDequeue => "poolDequeue" | .writeBlock => "writeBlock"
+  | .growSparseBlock => "growSparseBlock" | .growDataBlock => "growDataBlock" | .growSparseTail => "growSparseTail"
+  | .fragTableSet => "fragTableSet" | .fragLookup => "fragLookup" | .fragTableAppend => "fragTableAppend"
+  | .allocChunk => "allocChunk" | .htInsert => "htInsert"
+
+/-- `B<i><d>`, `A<n>:<z><d>` (z: all zero, d: duplicate of an earlier fragment), `E`, `S`, `F` -/
+def parseApi (tok : String) : Option BP.Api :=
+  match tok.toList with
+  | ['B', i, d] => some (.beginFile (i == '1') (d == '1'))
+  | ['E'] => some .endFile
+  | ['S'] => some .sync
+  | ['F'] => some .finish
+  | 'A' :: rest =>
+    match (String.ofList rest).splitOn ":" with
+    | [n, fl] => match n.toNat?, fl.toList with
+      | some n, [z, d] => some (.append n (z == '1') (d == '1'))
+      | _, _ => none
+    | _ => none
+  | _ => none
+
+def BPFUEL : Nat := 100000
+
+/-- run calls fault-free up to call `j`, then call `j` with a fault at the first primitive of one of `kinds`;
+    answers the results of calls 0..j and the primitive kinds call `j` executes -/
+def bpFaultAt (v : Variant) (calls : List BP.Api) (j : Nat) (kinds : List String) : String :=
+  let rec go (i : Nat) (cs : List BP.Api) (p : BP.Proc) (acc : List String) : String :=
+    match cs with
+    | [] => "short " ++ " ".intercalate acc
+    | a :: rest =>
+      if i < j then
+        match BP.runCall v BPFUEL a p [] with
+        | (r, _, p') => if r.ok then go (i + 1) rest p' (acc ++ ["ok"]) else "early-error " ++ " ".intercalate (acc ++ ["err"])
+      else
+        match BP.runCall v BPFUEL a p [] with
+        | (r0, _, _) =>
+          let names := r0.prims.map primName
+          let idx := names.findIdx (fun n => kinds.contains n)
+          if idx ≥ names.length then "nokind prims=" ++ joinOr names
+          else
+            match BP.runCall v BPFUEL a p (List.replicate idx false ++ [true]) with
+            | (r, _, _) =>
+              s!"{" ".intercalate (acc ++ [if r.ok then "ok" else "err"])} faulted={if r.faulted then 1 else 0} damaged={if r.damaged then 1 else 0} err={match r.err with | some .fault => "fault" | some .fuel => "fuel" | some .sequence => "sequence" | some .internal => "internal" | none => "-"} prims={joinOr names}"
+  go 0 calls {} []
+
+def bpFaultFree (v : Variant) (calls : List BP.Api) : String :=
+  let rs := BP.session v BPFUEL calls {} []
+  " ".intercalate (rs.map fun r => (if r.ok then "ok" else "err") ++ "/" ++ toString r.prims.length)
+
+def step (line : String) : String :=
+  match words line with
+  | ["run", v, tool, flags, nf, ns, faults] =>
+    match parseVariant v, parseCfg tool flags nf ns with
+    | some v, some c =>
+      match parseFaults c faults with
+      | some ps => showResult (run v c (scriptOf ps))
+      | none => "bad-op"
+    | _, _ => "bad-op"
+  | ["bp", v, j, kinds, calls] =>
+    match parseVariant v, j.toNat?, (calls.splitOn ",").mapM parseApi with
+    | some v, some j, some cs => bpFaultAt v cs j (kinds.splitOn "|")
+    | _, _, _ => "bad-op"
+  | ["bpfree", v, calls] =>
+    match parseVariant v, (calls.splitOn ",").mapM parseApi with
+    | some v, some cs => bpFaultFree v cs
+    | _, _ => "bad-op"
+  | ["sites", tool, flags, nf, ns] =>
+    match parseCfg tool flags nf ns with
+    | some c => joinOr ((program c).map siteName)
+    | none => "bad-op"
+  | ["monitor", crashed, exit0, diag, packer, left, same] =>
+    match bit crashed, bit exit0, bit diag, bit packer, bit left, bit same with
+    | some a, some b, some c, some d, some e, some f => Spec.verdict ⟨a, b, c, d, e, f⟩
+    | _, _, _, _, _, _ => "bad-op"
+  | _ => "bad-op"
+
 def run (_args : List String) : IO Unit := do
-  IO.eprintln "sqfsmodel: model C13 not built yet"
+  lineLoop (← IO.getStdin) (← IO.getStdout) step
+
 end Driver.C13
